@@ -46,8 +46,20 @@ func findMethod(f *ast.File, name string) *ast.FuncDecl {
 //     down over the collected walk items, "walk" if it ranges over walk.Plan directly
 func f9() {
 	_, ef := parseFile("internal/execute/execute.go")
-	interesting := map[string]string{"startMu.Lock": "startMu.Lock", "waiters.Get": "waiters.Get", "store.Read": "store.Read",
-		"e.validateStartState": "validateStartState", "e.runPlan": "runPlan"}
+	// matched by the last component(s) only, so that renaming the receiver does not matter
+	interesting := func(name string) (string, bool) {
+		for _, suf := range []string{"startMu.Lock", "waiters.Get", "store.Read"} {
+			if name == suf {
+				return suf, true
+			}
+		}
+		for _, m := range []string{"validateStartState", "runPlan"} {
+			if strings.HasSuffix(name, "."+m) {
+				return m, true
+			}
+		}
+		return "", false
+	}
 	var startOrder []string
 	if fn := findMethod(ef, "Start"); fn != nil {
 		ast.Inspect(fn.Body, func(n ast.Node) bool {
@@ -55,7 +67,7 @@ func f9() {
 				return false
 			}
 			if c, ok := n.(*ast.CallExpr); ok {
-				if v, ok := interesting[callName(c)]; ok {
+				if v, ok := interesting(callName(c)); ok {
 					startOrder = append(startOrder, v)
 				}
 			}
@@ -98,7 +110,15 @@ func f9() {
 					return true
 				})
 			}
-			releaseDeferred = inDefer["close"] && inDefer["waiters.Del"] && !inBody["close"] && !inBody["waiters.Del"] && inBody["e.runner"] && !inDefer["e.runner"]
+			hasSuffix := func(m map[string]bool, suf string) bool {
+				for k := range m {
+					if strings.HasSuffix(k, suf) {
+						return true
+					}
+				}
+				return false
+			}
+			releaseDeferred = inDefer["close"] && inDefer["waiters.Del"] && !inBody["close"] && !inBody["waiters.Del"] && hasSuffix(inBody, ".runner") && !hasSuffix(inDefer, ".runner")
 		}
 	}
 	flushOrder := "unknown"
